@@ -51,9 +51,14 @@ def h_optimality(ctx):
     d = ctx.reals("d", n)
     w = None
     if cfg["weights"]:
-        w = ctx.reals("w", n)
-        for v in w:
-            ctx.assume(v > 0)
+        if cfg.get("wscale"):
+            # weights of extreme magnitude (unnormalised 1/sigma^2): w_i = 2^k * v_i with v_i in [1/2, 2]; the power of two is exact in reals and doubles
+            v = ctx.reals("w", n, 0.5, 2.0)
+            w = v * (2.0 ** cfg["wscale"])
+        else:
+            w = ctx.reals("w", n)
+            for v in w:
+                ctx.assume(v > 0)
     alpha = None
     if cfg["damping"]:
         alpha = ctx.real("alpha")
@@ -100,7 +105,8 @@ def h_optimality(ctx):
             ctx.claim("certificate: gradient_j of [sum w r^2 + damping * |scaled params|^2] at the returned parameters = scale_j * (solver's normal-equation residual_j), which is zero", eq(Gj, s[j] * Hj))
         else:
             mag = sum(abs(float(ww[i] * J0[i, j])) * (sum(abs(float(J0[i, k] * params[k])) for k in range(m)) + abs(float(d[i]))) for i in range(n)) + (abs(float(alpha * s[j] * s[j] * params[j])) if alpha is not None else 0)
-            ctx.claim("returned parameters are a stationary point of sum w r^2 + damping * |params in unit-variance scaling|^2", _loose_eq(Gj, 0.0, mag))
+            f = 2.0 ** -cfg["wscale"] if cfg.get("wscale") else 1.0  # the tolerance's absolute floor is meant for weights of order one
+            ctx.claim("returned parameters are a stationary point of sum w r^2 + damping * |params in unit-variance scaling|^2", _loose_eq(Gj * f, 0.0, mag * f))
     if ctx.sym:
         rec = stubs.REGRESSION_LOG[-1]
         sc = stubs.SCALER_LOG[-1]
@@ -283,6 +289,9 @@ def _cfg_opt(tier, seed):
                     continue
                 out.append({"n": n, "m": m, "weights": weights, "damping": damping, "copy": bool((n + m + weights) % 2)})
     out.append({"n": 3, "m": 2, "weights": True, "damping": True, "copy": True, "constcol": 0})
+    for k in (-30, 30):
+        out.append({"n": 3, "m": 2, "weights": True, "damping": False, "copy": False, "wscale": k})
+    out.append({"n": 3, "m": 2, "weights": True, "damping": True, "copy": True, "wscale": -30})
     return out
 
 
